@@ -1,0 +1,76 @@
+//go:build verif
+
+package bytecode
+
+import "sort"
+
+// This file is only compiled with the "verif" build tag. It exposes read-only
+// views of compiler and VM state for external verification tooling and does
+// not change behaviour.
+
+// VerifSP returns the operand stack pointer.
+func (vm *VM) VerifSP() int { return vm.sp }
+
+// VerifGlobals returns the printed form of every global slot ("<nil>" for an
+// unset slot) and the dynamic kind of each value.
+func (vm *VM) VerifGlobals() (vals []string, kinds []string) {
+	for _, g := range vm.globals {
+		if g == nil {
+			vals = append(vals, "<nil>")
+			kinds = append(kinds, "nil")
+			continue
+		}
+		vals = append(vals, g.String())
+		kinds = append(kinds, verifKind(g))
+	}
+	return vals, kinds
+}
+
+func verifKind(v value) string {
+	switch v.(type) {
+	case numVal:
+		return "num"
+	case boolVal:
+		return "bool"
+	case stringVal:
+		return "string"
+	case arrayVal:
+		return "array"
+	case mapVal:
+		return "map"
+	case noneVal:
+		return "none"
+	}
+	return "unknown"
+}
+
+// VerifGlobalSymbols returns the global symbols of the compiler (name -> slot).
+func (c *Compiler) VerifGlobalSymbols() map[string]int {
+	s := c.symbolTable
+	for s.outer != nil {
+		s = s.outer
+	}
+	m := map[string]int{}
+	for name, sym := range s.store {
+		m[name] = sym.Index
+	}
+	return m
+}
+
+// VerifConstants returns the printed form and kind of each constant.
+func (b *Bytecode) VerifConstants() (vals []string, kinds []string) {
+	for _, c := range b.Constants {
+		vals = append(vals, c.String())
+		kinds = append(kinds, verifKind(c))
+	}
+	return vals, kinds
+}
+
+// VerifState returns the bookkeeping of a symbol table scope.
+func (s *SymbolTable) VerifState() (index, nestedMaxIndex int, names []string, isGlobal bool) {
+	for name := range s.store {
+		names = append(names, name)
+	}
+	sort.Strings(names)
+	return s.index, s.nestedMaxIndex, names, s.outer == nil
+}
